@@ -3,7 +3,7 @@
 # usage: build.sh [--cli]   (--cli also builds the real grass binary)
 set -euo pipefail
 export CARGO_NET_OFFLINE=true
-VERIF=/verif
+VERIF="${VERIF:-$(cd "$(dirname "$0")" && pwd)}"
 REPO="${VERIF_REPO:-/repo}"
 TARGET="${VERIF_TARGET:-$VERIF/target}"
 SHADOW="$TARGET/shadow"
